@@ -347,11 +347,11 @@ def result_types(data, export):
 CASES = []
 
 
-def case(name_, data, expect="ok", calls=None, v8=None):
+def case(name_, data, expect="ok", calls=None, v8=None, insterr=False):
     """expect: 'ok' or (stage, rule).  calls: [(export, [(type, value)], expected)] with expected a
     list of results, 'trap', or None (only compared with V8).  v8: 'accepts' when V8 is known to be
     laxer than 1.0 for this module (post-MVP feature), with the reason in the case name."""
-    CASES.append(dict(name=name_, data=data, expect=expect, calls=calls, v8=v8))
+    CASES.append(dict(name=name_, data=data, expect=expect, calls=calls, v8=v8, expect_insterr=insterr))
 
 
 def A(t, v):
@@ -582,6 +582,17 @@ def valid_cases():
         exports=[("f", "func", 1), ("imp", "func", 0), ("g", "global", 2), ("m", "mem", 0), ("t", "table", 0)],
         elems=[(op("global.get", 0), [0, 1])], datas=[(op("global.get", 0), b"hi")],
         codes=[([], lget(0) + b"\x10\x00" + op("global.get", 2, "i32.add") + i64c(1) + op("global.set", 1))]))
+    one = dict(types=[v_v], funcs=[0], exports=[("f", "func", 0)], codes=[([], b"")])
+    case("data segment out of bounds fails instantiation", module(
+        **dict(one, mems=[limits(1)], datas=[(i32c(65535), b"ab")])), calls=[("f", [], [])], insterr=True)
+    case("element segment out of bounds fails instantiation", module(
+        **dict(one, tables=[limits(1)], elems=[(i32c(1), [0])])), calls=[("f", [], [])], insterr=True)
+    case("trap in the start function fails instantiation", module(
+        types=[v_v], funcs=[0, 0], exports=[("f", "func", 0)], start=1,
+        codes=[([], b""), ([], op("unreachable"))]), calls=[("f", [], [])], insterr=True)
+    case("segments exactly at the end fit", module(
+        **dict(one, mems=[limits(1)], tables=[limits(1)], datas=[(i32c(65534), b"ab"), (i32c(65536), b"")],
+               elems=[(i32c(0), [0]), (i32c(1), [])])), calls=[("f", [], [])])
     case("function and code sections both absent, others present",
          module(types=[v_v], mems=[limits(0)], globals_=[(F64, 0, f64c(0.0))]))
     case("locals of every type in groups", module(
@@ -692,6 +703,13 @@ def invalid_cases():
     case("memory.size reserved byte", fn(op("memory.size", 1), mems=[limits(1)]), (D, "bad-reserved-byte"))
     case("call_indirect reserved byte", fn(i32c(0) + b"\x11\x00\x01", tables=[limits(1)]),
          (D, "bad-reserved-byte"))
+    case("call_indirect table index as padded LEB is post-1.0: V8 accepts (reference types)",
+         fn(i32c(0) + b"\x11\x00\x80\x00", tables=[limits(1)]), (D, "bad-reserved-byte"), v8="accepts")
+    case("passive data segment is post-1.0: V8 accepts (bulk memory)",
+         assemble({11: vec([b"\x01" + vec([b"\x0b"])])}), (D, "section-size-mismatch"), v8="accepts")
+    case("passive element segment is post-1.0: V8 accepts (bulk memory)", assemble({
+        1: vec([functype([], [])]), 3: vec([u(0)]), 9: vec([b"\x01\x00" + vec([u(0)])]),
+        10: vec([body([], b"")])}), (D, "unterminated-body"), v8="accepts")
     case("bad table element type", assemble({4: vec([b"\x7f" + limits(1)])}), (D, "bad-elemtype"))
     case("bad global mutability", module(globals_=[(I32, 2, i32c(0))]), (D, "bad-mutability"))
     case("type section with missing vector", assemble([(1, b"")]), (D, "section-size-mismatch"))
@@ -727,6 +745,9 @@ def invalid_cases():
     case("br_table labels differ", fn(bytes([O["block"], I32, O["block"], VOID]) + i32c(0) + i32c(0) +
                                       b"\x0e\x01\x00\x01" + op("end") + i32c(0) + op("end")),
          (V, "type-mismatch"))
+    case("br_table labels differ in unreachable code: 1.0 rejects, V8 accepts (later spec: arity only)",
+         fn(bytes([O["block"], I32, O["block"], F32]) + op("unreachable") + b"\x0e\x01\x00\x01" +
+            op("end", "drop") + i32c(0) + op("end")), (V, "type-mismatch"), v8="accepts")
     case("br value type mismatch", fn(bytes([O["block"], I32]) + f32c(1.0) + b"\x0c\x00" + op("end")),
          (V, "type-mismatch"))
     case("loop label takes no value", fn(bytes([O["loop"], I32]) + i32c(1) + b"\x0d\x00" + op("end")),
@@ -827,8 +848,11 @@ def run_part1(node, keep):
                     nm, nrec["valid"], nrec.get("error"), verdict))
         if res is None:
             continue
-        if nrec is not None and "insterr" in nrec:
-            fails.append("%s: V8 instantiation failed: %s" % (nm, nrec["insterr"]))
+        mine_inst = bool(res) and res[0][0] == "insterr"
+        if c["expect_insterr"] != mine_inst or (nrec is not None and ("insterr" in nrec) != mine_inst):
+            fails.append("%s: instantiation: reference %s, V8 %s, expected failure=%s" % (
+                nm, res[0] if mine_inst else "ok", nrec and nrec.get("insterr"), c["expect_insterr"]))
+        if mine_inst or (nrec is not None and "insterr" in nrec):
             continue
         for i, ((export, args, expected), got) in enumerate(zip(c["calls"], res)):
             ncalls += 1
@@ -863,7 +887,7 @@ F32_CONSTS = [0.0, -0.0, 1.0, -1.0, 0.5, -0.5, 1.5, 2.5, -2.5, 3.5, 0.1, 100.25,
               float("-inf"), float("nan"), 3.4028234663852886e38, 1e-45, 1.1754943508222875e-38,
               2147483648.0, -2147483648.0, 2147483520.0, 4294967296.0, 4294967040.0, -2147483904.0,
               16777216.0, 8388607.5, 8388608.0, 0.75, -0.75, 1e10, 1e-10]
-I32_BIN = ["i32." + n for n in _IBIN + _ICMP]
+I32_BIN = ["i32." + n for n in _IBIN * 3 + _ICMP]          # arithmetic weighted over comparisons
 I32_UN = ["i32." + n for n in _IUN + ["eqz"]]
 F32_BIN = ["f32." + n for n in ("add", "sub", "mul", "div", "min", "max")]     # no copysign: NaN sign
 F32_UN = ["f32." + n for n in _FUN]
@@ -920,6 +944,8 @@ class Gen:
                 return E(I32, d - 1) + E(I32, d - 1) + op(r.choice(I32_BIN))
             return E(F32, d - 1) + E(F32, d - 1) + op(r.choice(F32_BIN))
         if c < 0.42:
+            if t == I32 and r.random() < 0.6:      # clz/ctz/popcnt/eqz collapse values: keep them rarer
+                return E(I32, d - 1) + E(I32, d - 1) + op(r.choice(I32_BIN))
             return E(t, d - 1) + op(r.choice(I32_UN if t == I32 else F32_UN))
         if c < 0.52:
             if t == I32:
@@ -993,15 +1019,23 @@ class Gen:
         rt = self.r.choice([I32, F32])
         self.labels = [rt]
         d = self.r.randrange(2, 6)
-        return rt, self.stmts(d) + self.expr(rt, d)
+        code = self.stmts(d) + self.expr(rt, d)
+        if rt == I32:                  # fold the i32 locals into the result so that they are observed
+            code += lget(4) + i32c(31) + op("i32.mul", "i32.xor") + lget(6) + i32c(7) + op("i32.rotl", "i32.add")
+        else:
+            code += lget(5) + op("f32.add") + lget(7) + op("f32.sub")
+        return rt, code
 
 
 def arg_vectors(rng):
-    vs = [(0, 0, 0.0, 0.0), (1, -1, 1.5, -2.5), (2 ** 31 - 1, -2 ** 31, float("inf"), float("nan")),
-          (33, 7, -0.0, 3.4028234663852886e38)]
-    for _ in range(2):
-        vs.append((rng.choice(I32_CONSTS), rng.randrange(-2 ** 31, 2 ** 31), rng.choice(F32_CONSTS),
-                   struct.unpack("<f", struct.pack("<f", rng.uniform(-1e6, 1e6)))[0]))
+    vs = [(0, 0, 0.0, 0.0), (2 ** 31 - 1, -2 ** 31, float("inf"), float("nan")),
+          (33, -7, -0.0, 3.4028234663852886e38)]
+    for _ in range(5):
+        vs.append((rng.choice(I32_CONSTS) if rng.random() < 0.3 else rng.randrange(-2 ** 31, 2 ** 31),
+                   rng.randrange(-2 ** 31, 2 ** 31) >> rng.choice([0, 0, 8, 20, 27]),
+                   rng.choice(F32_CONSTS) if rng.random() < 0.3 else
+                   struct.unpack("<f", struct.pack("<f", rng.uniform(-100, 100)))[0],
+                   struct.unpack("<f", struct.pack("<f", rng.uniform(-1, 1) * 10.0 ** rng.randrange(-3, 12)))[0]))
     return vs
 
 
@@ -1124,28 +1158,17 @@ def v8_laxer(data, verdict):
         return "threads: shared memory limits flag"
     if rule in ("bad-valtype", "bad-elemtype") and data[off] in (0x7B, 0x70, 0x6F):
         return "v128 / funcref / externref value types (simd, reference types)"
-    if rule == "bad-reserved-byte":
+    if rule == "bad-reserved-byte" and "call_indirect" in detail:
         return "reference types: call_indirect carries a table index (LEB), not a reserved byte"
     if rule in ("bad-import-kind", "bad-export-kind") and data[off] == 4:
         return "exceptions: tag import/export kind"
     if rule == "multiple-tables":
         return "reference types: several tables"
-    if stage == "decode" and 9 in [sec_id for sec_id in _section_ids(data)] and _in_section(data, off, (9, 11)):
+    if stage == "decode" and _in_section(data, off, (9, 11)):
         return "bulk memory: element/data segments start with a flags field (passive/declared segments)"
     if rule == "type-mismatch" and "br_table" in detail:
         return "br_table in unreachable code: later spec versions only require equal arity"
-    if rule == "stack-underflow" or rule == "type-mismatch":
-        # 1.0 types `select` operands in unreachable code slightly more strictly than V8; see below
-        return None
     return None
-
-
-def _section_ids(data):
-    try:
-        decode(data)
-    except DecodeError as e:
-        return [sec["id"] for sec in e.module.sections]
-    return []
 
 
 def _in_section(data, off, ids):
@@ -1161,7 +1184,7 @@ def _in_section(data, off, ids):
 def v8_stricter(data, nrec):
     """The reference accepts and V8 rejects: only V8 implementation limits are tolerated."""
     err = nrec.get("error") or ""
-    for marker in ("local count too large", "larger than implementation limit", "maximum", "exceeds"):
+    for marker in ("local count too large", "exceeds internal limit"):
         if marker in err:
             return "V8 implementation limit: " + err
     return None
@@ -1196,3 +1219,62 @@ def run_part3(node, keep, rng, metas, count=2000):
     for why, n in sorted(tolerated.items()):
         print("   tolerated x%d: %s" % (n, why))
     return fails
+
+
+# ---------------------------------------------------------------------------------------------
+def perf():
+    rng = random.Random(7)
+    parts, _f = random_module(rng, 12)
+    data = module(**parts)
+    while len(data) < 900 or len(data) > 1400:
+        parts, _f = random_module(rng, rng.randrange(4, 16))
+        data = module(**parts)
+    n = 200
+    t0 = time.perf_counter()
+    for _ in range(n):
+        validate(decode(data))
+    per = (time.perf_counter() - t0) / n * 1000
+    # sum of i*i for i < n, 13 instructions per iteration
+    loop = (bytes([O["block"], VOID, O["loop"], VOID]) + lget(0) + op("i32.eqz") + b"\x0d\x01" + lget(1) +
+            lget(0) + lget(0) + op("i32.mul", "i32.add") + lset(1) + lget(0) + i32c(1) + op("i32.sub") +
+            lset(0) + b"\x0c\x00" + op("end", "end") + lget(1))
+    m = decode(module(types=[([I32], [I32])], funcs=[0], exports=[("f", "func", 0)], codes=[([(1, I32)], loop)]))
+    inst = Instance(m)
+    t0 = time.perf_counter()
+    r = inst.invoke("f", [100000])
+    dt = time.perf_counter() - t0
+    ok = r == [((sum(i * i for i in range(100001)) + 2 ** 31) % 2 ** 32) - 2 ** 31]
+    try:
+        Instance(m, max_steps=1000).invoke("f", [100000])
+        ok = False
+    except StepLimit:
+        pass
+    print("perf: decode+validate of a %d-byte module %.2f ms; interpreter %.0f instructions/s%s"
+          % (len(data), per, inst.steps / dt, "" if ok else "  (WRONG RESULT)"))
+    fails = [] if ok else ["perf loop: wrong result or missing StepLimit"]
+    if per > 5:
+        fails.append("decode+validate too slow: %.2f ms" % per)
+    if inst.steps / dt < 200000:
+        fails.append("interpreter too slow: %.0f instructions/s" % (inst.steps / dt))
+    return fails
+
+
+def main(argv):
+    seed = int(argv[argv.index("--seed") + 1]) if "--seed" in argv else 20260922
+    keep = "--keep" in argv
+    node = find_node()
+    print("node: %s   seed: %d" % (node or "not found - V8 comparisons skipped", seed))
+    rng = random.Random(seed)
+    fails = run_part1(node, keep)
+    f2, metas = run_part2(node, keep, rng)
+    fails += f2
+    fails += run_part3(node, keep, rng, metas)
+    fails += perf()
+    for f in fails[:50]:
+        print("FAIL", f[:1500])
+    print("RESULT: %s (%d failure(s))" % ("ok" if not fails else "FAILED", len(fails)))
+    return 1 if fails else 0
+
+
+if __name__ == "__main__":
+    sys.exit(main(sys.argv[1:]))
